@@ -167,11 +167,14 @@ func parseArgs(argStr string) []string {
 	for _, ch := range strings.TrimSpace(argStr) {
 		switch {
 		case (ch == '"' || ch == '\'') && !inQuote:
+			// keep the quotes: resolveArgument recognises a string literal by them
 			inQuote = true
 			quoteChar = ch
+			current.WriteRune(ch)
 		case ch == quoteChar && inQuote:
 			inQuote = false
 			quoteChar = 0
+			current.WriteRune(ch)
 		case ch == ',' && !inQuote:
 			if current.Len() > 0 {
 				args = append(args, strings.TrimSpace(current.String()))
@@ -298,14 +301,21 @@ func (v *Vue) resolveArgument(ctx VueContext, arg string) any {
 		return i
 	}
 
-	// Try to parse as float
-	if f, err := strconv.ParseFloat(arg, 64); err == nil {
-		return f
+	// Try to parse as float (numeric spellings only: ParseFloat also accepts words such as
+	// "inf" and "nan", which are variable names here)
+	if len(arg) > 0 && strings.ContainsAny(arg[:1], "0123456789+-.") && strings.ContainsAny(arg, "0123456789") {
+		if f, err := strconv.ParseFloat(arg, 64); err == nil {
+			return f
+		}
 	}
 
-	// Try to parse as bool
-	if b, err := strconv.ParseBool(arg); err == nil {
-		return b
+	// Bool literals are exactly true and false (ParseBool also accepts t, f, T, F, 1, 0, ...,
+	// which would hide variables of those names)
+	switch arg {
+	case "true":
+		return true
+	case "false":
+		return false
 	}
 
 	// Try to resolve as variable
